@@ -135,10 +135,13 @@ pub fn attr_split(input: &str) -> impl Iterator<Item = String> + '_ {
 }
 
 pub fn extract_urlref(input: &str) -> Option<ElRef> {
+    // url(#id), also with the reference quoted and / or padded: url( '#id' )
     input
         .trim()
-        .strip_prefix("url(#")
+        .strip_prefix("url(")
         .and_then(|s| s.strip_suffix(')'))
+        .map(|s| s.trim().trim_matches(['\'', '"']).trim())
+        .and_then(|s| s.strip_prefix('#'))
         .map(|id| ElRef::Id(id.to_string()))
 }
 
